@@ -77,12 +77,24 @@ pub struct OracleInfo {
     pub verification_full: bool,
 }
 
+/// an spl-single-pool validator pool: pool account, its LST mint PDA and its stake account PDA
+#[derive(Clone, Debug)]
+pub struct PoolInfo {
+    pub pool: Pubkey,
+    pub mint: Pubkey,
+    pub sol_pool: Pubkey,
+    pub mint_name: String,
+    /// "stake" (delegated), "init" (initialized, not delegated) or "none" (uninitialized)
+    pub state: String,
+}
+
 #[derive(Clone, Default)]
 pub struct Env {
     pub world: World,
     pub names: Names,
     pub mints: BTreeMap<String, MintInfo>,
     pub oracles: BTreeMap<String, OracleInfo>,
+    pub pools: BTreeMap<String, PoolInfo>,
 }
 
 pub fn fee_state_key() -> Pubkey {
@@ -191,6 +203,65 @@ impl Env {
             MintInfo { key, program, decimals, fee_bps: if kind == "t22fee" { fee_bps } else { 0 }, max_fee, authority: auth },
         );
         key
+    }
+
+    /// spl-single-pool look-alike: pool account (owned by the single-pool program), LST mint at its "mint" PDA
+    /// (classic SPL mint, 9 decimals) and the pool's stake account at its "stake" PDA (owned by the native
+    /// stake program, bincode/borsh StakeStateV2 with the given delegated stake).
+    pub fn add_stake_pool(&mut self, name: &str, mint_name: &str, stake: u64) {
+        let spl = marginfi::constants::SPL_SINGLE_POOL_ID;
+        let pool = self.k(name);
+        self.world.set(pool, Acct { lamports: 10_000_000, data: vec![1u8; 33], owner: spl, executable: false });
+        let mint = Pubkey::find_program_address(&[b"mint", pool.as_ref()], &spl).0;
+        let sol_pool = Pubkey::find_program_address(&[b"stake", pool.as_ref()], &spl).0;
+        self.names.reg(mint_name, mint);
+        self.names.reg(&format!("{}.stake", name), sol_pool);
+        let auth = self.wallet("mintauth");
+        self.world.set(mint, Acct { lamports: 10_000_000, data: vec![0u8; spl_token::state::Mint::LEN], owner: spl_token::ID, executable: false });
+        let ix = spl_token::instruction::initialize_mint2(&spl_token::ID, &mint, &auth, None, 9).unwrap();
+        self.run(&[ix], &[]);
+        self.mints.insert(mint_name.to_string(), MintInfo { key: mint, program: spl_token::ID, decimals: 9, fee_bps: 0, max_fee: 0, authority: auth });
+        self.pools.insert(name.to_string(), PoolInfo { pool, mint, sol_pool, mint_name: mint_name.to_string(), state: "stake".into() });
+        self.set_stake(name, stake, "stake");
+    }
+
+    pub fn set_stake(&mut self, name: &str, stake: u64, state: &str) {
+        use solana_program::stake::state::{Delegation, Meta, Stake, StakeStateV2};
+        use solana_program::stake::stake_flags::StakeFlags;
+        let p = match self.pools.get_mut(name) {
+            Some(p) => p,
+            None => return,
+        };
+        p.state = state.to_string();
+        let st = match state {
+            "stake" => StakeStateV2::Stake(
+                Meta::default(),
+                Stake { delegation: Delegation { stake, ..Delegation::default() }, credits_observed: 0 },
+                StakeFlags::empty(),
+            ),
+            "init" => StakeStateV2::Initialized(Meta::default()),
+            _ => StakeStateV2::Uninitialized,
+        };
+        let mut data = borsh::to_vec(&st).expect("stake state");
+        data.resize(200, 0);
+        let key = p.sol_pool;
+        self.world.set(key, Acct { lamports: stake.saturating_add(2_282_880), data, owner: marginfi::constants::NATIVE_STAKE_ID, executable: false });
+    }
+
+    /// (delegated stake, LST supply) of a pool, read back from the accounts
+    pub fn pool_numbers(&self, p: &PoolInfo) -> (u64, u64) {
+        use solana_program::stake::state::StakeStateV2;
+        let stake = self
+            .world
+            .get(&p.sol_pool)
+            .and_then(|a| solana_program::borsh1::try_from_slice_unchecked::<StakeStateV2>(&a.data).ok())
+            .and_then(|s| match s {
+                StakeStateV2::Stake(_, st, _) => Some(st.delegation.stake),
+                _ => None,
+            })
+            .unwrap_or(0);
+        let supply = self.world.get(&p.mint).map(|a| u64::from_le_bytes(a.data[36..44].try_into().unwrap())).unwrap_or(0);
+        (stake, supply)
     }
 
     pub fn mint_by_key(&self, key: &Pubkey) -> Option<&MintInfo> {
